@@ -100,7 +100,8 @@ Lemma ap_unit_variant_null Sc n variant m : ap m -> ap (unit_variant_null Sc n v
 Proof.
   intro H. unfold unit_variant_null. destruct n; auto.
   destruct (union_named Sc variants variant) as [[d k']|]; auto.
-  destruct (fnode_at Sc k') as [[]|]; auto. apply ap_write_varint.
+  destruct (fnode_at Sc k') as [[]|]; auto.
+  match goal with |- context [if ?c then _ else _] => destruct c end; auto. apply ap_write_varint.
 Qed.
 Lemma ap_named_step Sc n nm : ap (named_step Sc n nm).
 Proof. unfold named_step. ap_tac. Qed.
